@@ -182,6 +182,11 @@ void harness(void)
 	if (ret == 0) {
 		VP_ASSERT(outsz < BS, "get_fragment: a tail is smaller than a block");
 		VP_ASSERT(out == NULL ? outsz == 0 : VP_R_OK(out, outsz), "get_fragment: buffer holds the reported bytes");
+		if (outsz > 0) {
+			sqfs_u32 fi, fo;
+			sqfs_inode_get_frag_location(ino, &fi, &fo);
+			VP_ASSERT((sqfs_u64)fo + outsz <= rd->frag_blk_size, "C05/C10: a tail end is only delivered when it lies inside the fragment block that was actually stored (the bound read() and the stream reader use), never out of the cache buffer's slack");
+		}
 		VP_REACH("ok");
 	} else {
 		VP_REACH("err");
